@@ -56,6 +56,19 @@ Monotone(e) ==
 UnauthAtLeastAuth(e) ==
   (A.enc /\ A.mode = "unauth" /\ e.cut \in DOMAIN authAt) =>
      \A n \in DOMAIN authAt[e.cut] : n \in FileNames(e) /\ LenOf(e, n) >= authAt[e.cut][n]
+\* Finding D23: with compression under encryption the decompressor is fed garbage right after the authentic bytes of a
+\* damaged archive; what brotli had decoded but not yet handed out when it detects the garbage stays in its ring buffer
+\* and is lost, while the authenticated mode (clean end of input) gets it.  The floor that must hold nevertheless:
+\* everything in the compressed blocks that end before the damage.
+DecoderTailFloor(e) ==
+  LET a == Min(A.badchunk * A.CH, EncAvail(A, e.cut, "unauth"))
+      P == CompBounds(A, a)[1] IN
+  \A id \in Started(A, P) : /\ A.sizes[NameOf(A, id)].n \in FileNames(e)
+                            /\ LenOf(e, A.sizes[NameOf(A, id)].n) >= RecOf(A, id, P)
+UnauthClause(e) ==
+  IF UnauthAtLeastAuth(e) THEN {}
+  ELSE IF A.comp /\ A.badchunk > 0 /\ DecoderTailFloor(e) THEN {"UnauthAtLeastAuth_DecoderTail"}
+  ELSE {"UnauthAtLeastAuth"}
 
 \* C14: when flush() returned with P plaintext bytes of the block stream written, what had reached the destination
 \* is enough to recover every file byte appended so far (authenticated mode: every byte in completed chunks;
@@ -81,7 +94,7 @@ Clauses(e) ==
   (IF Exact(e) THEN {} ELSE {"Exact"}) \cup
   (IF AuthOnlyVerified(e) THEN {} ELSE {"AuthOnlyVerified"}) \cup
   (IF Monotone(e) THEN {} ELSE {"Monotone"}) \cup
-  (IF UnauthAtLeastAuth(e) THEN {} ELSE {"UnauthAtLeastAuth"})
+  UnauthClause(e)
 
 Lens(e) == [n \in FileNames(e) |-> LenOf(e, n)]
 \* pointwise maximum, so that one regression is reported once and does not mask the next
